@@ -5,11 +5,12 @@ Require Import SZV.Model.Threads SZV.Proofs.Threads_proofs.
 Local Open Scope Z_scope.
 
 (* calls that agree on every global they write (same bound-mode class, same value range when range protection is
-   on, same interval count) and read a global only after writing it observe, under every schedule of their atomic
-   blocks, exactly what they observe when run alone -- hence (a call being a function of what it reads) return the
-   same stream and reconstruction *)
-Theorem C15_agree_schedule_independent : forall (P:nat -> prog) (vg m0:nat -> Z),
+   on, same interval count), read only tracked globals and only after writing them, and whose saved-and-restored settings
+   (copies) land in untracked globals observe, under every schedule of their atomic blocks, exactly what they observe when
+   run alone -- hence (a call being a function of what it reads) return the same stream and reconstruction *)
+Theorem C15_agree_schedule_independent : forall (P:nat -> prog) (vg m0:nat -> Z) (tr:nat -> bool),
   (forall t, agrees vg (concat (P t))) -> (forall t, own_before [] (concat (P t)) = true) ->
+  (forall t, rd_tracked tr (concat (P t))) -> (forall t, cp_untracked tr (concat (P t))) ->
   forall n sched t, (t < n)%nat -> obs (concurrent m0 n P sched) t = alone_obs m0 (P t).
 Proof. exact agree_schedule_independent. Qed.
 Print Assumptions C15_agree_schedule_independent.
@@ -20,11 +21,32 @@ Theorem C15_race_refuted : obs (concurrent (fun _ => 0) 2 racy [0%nat; 1%nat; 0%
 Proof. exact race_refuted. Qed.
 Print Assumptions C15_race_refuted.
 
-(* non-vacuity: two calls with equal settings, three blocks each, meet both hypotheses *)
-Definition ex_prog : prog := [[Wr 1 0; Wr 7 64]; [Rd 7]; [Rd 1]].
-Example C15_ex : own_before [] (concat ex_prog) = true /\ agrees (fun g => if Nat.eqb g 7 then 64 else 0) (concat ex_prog)
-  /\ obs (concurrent (fun _ => 5) 2 (fun _ => ex_prog) [1%nat; 0%nat; 0%nat; 1%nat]) 1%nat = [64; 0].
+(* the entry saves the accelerate flag, clears it and puts the saved value back on return: when another call reads the flag
+   (a PW_REL call choosing its path) the restore of one call lands between the clear and the read of the other *)
+Definition restore_race (t:nat) : prog :=
+  match t with
+  | O => [[Cp 6 100; Wr 6 1]; [Cp 100 6]]
+  | S O => [[Cp 6 101; Wr 6 1]; [Rd 6]; [Cp 101 6]]
+  | _ => []
+  end.
+Theorem C15_restore_race_refuted :
+  obs (concurrent (fun _ => 0) 2 restore_race [0%nat; 1%nat; 0%nat; 1%nat]) 1%nat <> alone_obs (fun _ => 0) (restore_race 1%nat).
+Proof. vm_compute. intro H. discriminate H. Qed.
+Print Assumptions C15_restore_race_refuted.
+
+(* non-vacuity: two calls with equal settings that save and restore an untracked setting (global 6, slots 100+) and
+   read only what they wrote meet all four hypotheses *)
+Definition ex_prog (t:nat) : prog := [[Wr 1 0; Cp 6 (100 + t); Wr 6 1; Wr 7 64]; [Rd 7]; [Rd 1; Cp (100 + t) 6]].
+Definition ex_tr (g:nat) : bool := Nat.eqb g 1 || Nat.eqb g 7.
+Example C15_ex : (forall t, own_before [] (concat (ex_prog t)) = true) /\
+  (forall t, agrees (fun g => if Nat.eqb g 7 then 64 else if Nat.eqb g 6 then 1 else 0) (concat (ex_prog t))) /\
+  (forall t, rd_tracked ex_tr (concat (ex_prog t))) /\ (forall t, cp_untracked ex_tr (concat (ex_prog t)))
+  /\ obs (concurrent (fun _ => 5) 2 ex_prog [1%nat; 0%nat; 0%nat; 1%nat]) 1%nat = [64; 0].
 Proof.
-  split; [reflexivity|]. split; [|vm_compute; reflexivity].
-  intros g v H. cbn in H. repeat destruct H as [H|H]; try discriminate H; try contradiction; inversion H; subst; reflexivity.
+  split; [reflexivity|]. split; [|split; [|split; [|vm_compute; reflexivity]]].
+  - intros t g v H. cbn in H. repeat destruct H as [H|H]; try discriminate H; try contradiction; inversion H; subst; reflexivity.
+  - intros t g H. cbn in H. repeat destruct H as [H|H]; try discriminate H; try contradiction; inversion H; subst; reflexivity.
+  - intros t sg dg H. cbn in H. repeat destruct H as [H|H]; try discriminate H; try contradiction; inversion H; subst; unfold ex_tr.
+    + destruct t; reflexivity.
+    + reflexivity.
 Qed.
